@@ -14,7 +14,7 @@ LEVEL = "exploration"
 RULE = (
     "(sets) every sequence of up to N add_value/add_range/+ operations over a small integer domain: membership of every probe, "
     "iter_values and is_disjoint (against every second set of up to 2 operations) equal the Python-set model; (tables) every table "
-    "of 2 keys x C columns with cells from {0}, {1}, {0..1}, {}, any and every partial assignment: v in allowed_values_for(key | rest) "
+    "of 2 keys x C columns with cells from {0}, {1}, {0..1}, {}, any, key-absent and every partial assignment: v in allowed_values_for(key | rest) "
     "<=> is_allowed_combination(rest + {key: v}), and value-at-a-time checking accepts exactly the assignments whose every prefix is "
     "allowed; (csv) every table of 2 keys x 2 columns with cells from 7 textual kinds read back equals what was written; "
     "non-trivial = at least one range or 'any' involved"
@@ -46,8 +46,10 @@ def tasks(tier, seed):
     for first in range(len(pops) + 1):
         out.append({"id": "pair first=%d" % first, "harness": "pair", "args": (pdom, first)})
     ncol = 2 if q else 3
-    for c0 in range(5):
-        for c1 in range(5):
+    for c0 in range(6):
+        for c1 in range(6):
+            if c0 == 5 and c1 == 5:
+                continue  # an empty column is the documented catch-all rule: outside the property
             out.append({"id": "table %d%d" % (c0, c1), "harness": "table", "args": (ncol, c0, c1)})
     for c0 in range(7):
         out.append({"id": "csv %d" % c0, "harness": "csv", "args": (2 if q else 3, c0)})
@@ -68,7 +70,8 @@ def _apply(vs_cls, ops_list):
 
 
 CELLS = [("v0", lambda C: C.ValueSet(0), {0}), ("v1", lambda C: C.ValueSet(1), {1}), ("r01", lambda C: C.ValueSet((0, 1)), {0, 1}),
-         ("empty", lambda C: C.ValueSet(), set()), ("any", lambda C: C.AnyValue(), None)]
+         ("empty", lambda C: C.ValueSet(), set()), ("any", lambda C: C.AnyValue(), None),
+         ("absent", None, set())]  # the column does not mention the key at all (ragged table): nothing is allowed for it
 CSV_CELLS = [("0", {0}), ("1", {1}), ("0-2", {0, 1, 2}), ('"0,2"', {0, 2}), ("any", None), ("", set()), ('""""', "ditto")]
 
 
@@ -87,6 +90,14 @@ def _run(task, choose, report):
             b, mb = _apply(C.ValueSet, seq[len(seq) // 2:])
             vs, model = a + b, ma | mb
             report("plus-leaves-operands-alone", set(a.iter_values()) == ma and set(b.iter_values()) == mb, seq)
+            # the union is a new set: changing it afterwards must not change the operands (and vice versa)
+            vs.add_value(dom + 3)
+            model = model | {dom + 3}
+            report("union-result-independent-of-operands", set(a.iter_values()) == ma and set(b.iter_values()) == mb, seq)
+            e = C.ValueSet()
+            u = e + a
+            u.add_range(dom + 5, dom + 6)
+            report("union-with-empty-is-a-copy", set(a.iter_values()) == ma and set(e.iter_values()) == set(), seq)
         else:
             vs, model = _apply(C.ValueSet, seq)
         for p in range(-1, dom + 2):
@@ -110,8 +121,9 @@ def _run(task, choose, report):
         return [s1, s2]
     if hname == "table":
         ncol, c0, c1 = task["args"]
-        cols = [(c0, c1)] + [(choose("c%d_0" % j, 5), choose("c%d_1" % j, 5)) for j in range(1, ncol)]
-        table = [{"k1": CELLS[a][1](C), "k2": CELLS[b][1](C)} for a, b in cols]
+        cols = [(c0, c1)] + [(choose("c%d_0" % j, 6), choose("c%d_1" % j, 6)) for j in range(1, ncol)]
+        cols = [(a, b) if (a, b) != (5, 5) else (3, 5) for a, b in cols]
+        table = [{k: CELLS[i][1](C) for k, i in (("k1", a), ("k2", b)) if CELLS[i][1] is not None} for a, b in cols]
         models = [(CELLS[a][2], CELLS[b][2]) for a, b in cols]
 
         def allowed(vals):
@@ -126,6 +138,12 @@ def _run(task, choose, report):
         report("is_allowed_combination", bool(C.is_allowed_combination(table, dict(rest))) == allowed(rest), [desc, rest])
         if v2 >= 0:
             av = C.allowed_values_for(table, "k2", dict(rest))
+            if not isinstance(av, C.AnyValue):
+                before = [sorted(map(repr, col.get("k2", []))) if not isinstance(col.get("k2"), C.AnyValue) else "any" for col in table]
+                av.add_value(77)
+                after = [sorted(map(repr, col.get("k2", []))) if not isinstance(col.get("k2"), C.AnyValue) else "any" for col in table]
+                report("query-result-does-not-alias-the-table", before == after, [desc, rest])
+                av = C.allowed_values_for(table, "k2", dict(rest))
             both = dict(rest, k2=v2)
             report("allowed_values_for<=>is_allowed_combination", (v2 in av) == bool(C.is_allowed_combination(table, both)), [desc, both])
             report("is_allowed_combination", bool(C.is_allowed_combination(table, both)) == allowed(both), [desc, both])
